@@ -926,18 +926,6 @@ func sgn64(a, b int64) int {
 	}
 }
 
-// sgnu64 returns the signum of (unsigned) a-b.
-func sgnu64(a, b uint64) int {
-	switch {
-	case a < b:
-		return -1
-	case a > b:
-		return 1
-	default:
-		return 0
-	}
-}
-
 // sgn returns the signum of a-b.
 func sgn(a, b int) int {
 	return sgn64(int64(a), int64(b))
